@@ -1,6 +1,8 @@
-(* SliceMem.v — Go slices over an explicit array memory (used by C16).
+(* SliceMem.v — Go slices and maps over an explicit object memory (used by C16).
 
-   memory  = list of arrays, an array is identified by its position;
+   memory  = list of objects, an object is identified by its position; an object
+             is an array (the backing store of slices) or a map, stored as the
+             flat list k1 v1 k2 v2 ... of its entries in iteration order;
    a slice = a window {arr; off; len; cap} into one array (cap counted from off,
              as Go's cap());
    make    allocates a new array;
@@ -13,11 +15,17 @@
             business: it is the parameter [slack] of every function below and no
             theorem assumes anything about it.
 
-   Computations are  M A := mem -> option (A * mem) ; [None] is a Go run-time
-   panic (index out of range, explicit panic) or, for the two fuel-driven heap
-   loops, exhausted fuel.  Definitions only; the lemmas are in C16_Proofs.v. *)
+   make(map) allocates a new (empty) object; m[k] = v and delete(m, k) replace
+   the object of THAT map; lookups and `range` (a snapshot of the entries, in
+   the stored order — Go leaves the order open, no theorem depends on it) only
+   read.  Maps and arrays share the id space but a Go program can never use one
+   as the other; the theorems hold for every descriptor anyway.
 
-From Gogu Require Import Base.
+   Computations are  M A := mem -> option (A * mem) ; [None] is a Go run-time
+   panic (index out of range, explicit panic) or, for the fuel-driven loops,
+   exhausted fuel.  Definitions only; the lemmas are in C16_Proofs.v. *)
+
+From Gogu Require Import Base C14_Model.
 Local Open Scope nat_scope.
 
 Definition mem := list (list Z).
@@ -37,11 +45,12 @@ Fixpoint set_nth {A} (l : list A) (i : nat) (x : A) : list A :=
 Definition write_cell (m : mem) (id i : nat) (v : Z) : mem :=
   set_nth m id (set_nth (arr_of m id) i v).
 
-Fixpoint write_from (m : mem) (id i : nat) (vs : list Z) : mem :=
-  match vs with
-  | [] => m
-  | v :: vs' => write_from (write_cell m id i v) id (S i) vs'
-  end.
+(* vs written over arr from position i on (what falls behind the end of arr is dropped) *)
+Definition splice (arr : list Z) (i : nat) (vs : list Z) : list Z :=
+  firstn i arr ++ firstn (length arr - i) vs ++ skipn (i + length vs) arr.
+
+Definition write_from (m : mem) (id i : nat) (vs : list Z) : mem :=
+  set_nth m id (splice (arr_of m id) i vs).
 
 (* the elements a slice currently shows *)
 Definition read_all (m : mem) (s : slice) : list Z :=
@@ -65,12 +74,35 @@ Notation "x <- c ;; k" := (bind c (fun x => k)) (at level 61, c at next level, r
 Notation "c ;;; k" := (bind c (fun _ => k)) (at level 61, right associativity) : mem_scope.
 Local Open Scope mem_scope.
 
-(* for i over idxs { st = body(i, st) } *)
-Fixpoint for_each {S} (idxs : list nat) (body : nat -> S -> M S) (st : S) : M S :=
-  match idxs with
+(* for x over xs { st = body(x, st) }  — xs: indices, entries of a map, a list of descriptors *)
+Fixpoint for_each {X S} (xs : list X) (body : X -> S -> M S) (st : S) : M S :=
+  match xs with
   | [] => ret st
-  | i :: rest => st' <- body i st ;; for_each rest body st'
+  | x :: rest => st' <- body x st ;; for_each rest body st'
   end.
+
+(* a loop whose number of iterations is not an obvious function of the input:
+   [step] is run until it answers [inr result], at most p times (p in binary, so
+   a bound like 2^40 costs nothing; the result is reached after the same steps
+   whatever the bound).  [inl] after p steps = out of fuel = [fail]. *)
+Fixpoint iter_until {S R} (p : positive) (step : S -> M (S + R)) (x : S) : M (S + R) :=
+  match p with
+  | xH => step x
+  | xO p' =>
+      r <- iter_until p' step x ;;
+      match r with inl x' => iter_until p' step x' | inr d => ret (inr d) end
+  | xI p' =>
+      r <- step x ;;
+      match r with
+      | inl x1 =>
+          r2 <- iter_until p' step x1 ;;
+          match r2 with inl x2 => iter_until p' step x2 | inr d => ret (inr d) end
+      | inr d => ret (inr d)
+      end
+  end.
+Definition run_loop {S R} (p : positive) (step : S -> M (S + R)) (x : S) : M R :=
+  r <- iter_until p step x ;; match r with inr d => ret d | inl _ => fail end.
+Definition big_fuel : positive := 1099511627776.   (* 2^40 *)
 
 (* ---------- primitives ---------- *)
 
@@ -121,6 +153,33 @@ Definition copy_go (dst : slice) (vs : list Z) : M unit := fun m =>
 (* swap(data, i, j)  /  s[i], s[j] = s[j], s[i] *)
 Definition swap (s : slice) (i j : nat) : M unit :=
   a <- rd s i ;; b <- rd s j ;; wr s i b ;;; wr s j a.
+
+(* ---------- maps ---------- *)
+
+(* the flat form of a map and back *)
+Fixpoint unflat (l : list Z) : amap :=
+  match l with
+  | k :: v :: l' => (k, v) :: unflat l'
+  | _ => []
+  end.
+Definition kvflat (a : amap) : list Z := flat_map (fun kv => [fst kv; snd kv]) a.
+
+(* the entries of map id, in iteration order *)
+Definition map_of (m : mem) (id : nat) : amap := unflat (arr_of m id).
+Definition put_map (m : mem) (id : nat) (a : amap) : mem := set_nth m id (kvflat a).
+
+(* make(map[K]V) / a map literal *)
+Definition make_map : M nat := alloc [].
+Definition lit_map (a : amap) : M nat := alloc (kvflat a).
+(* for k, v := range m — the entries when the loop starts (the helpers only ever
+   delete the entry they are looking at, or write the entry they have just read) *)
+Definition m_entries (id : nat) : M amap := fun m => Some (map_of m id, m).
+(* v, ok := m[k] *)
+Definition m_lookup (id : nat) (k : Z) : M (option Z) := fun m => Some (lookup (map_of m id) k, m).
+(* m[k] = v *)
+Definition m_store (id : nat) (k v : Z) : M unit := fun m => Some (tt, put_map m id (map_set (map_of m id) k v)).
+(* delete(m, k) *)
+Definition m_delete (id : nat) (k : Z) : M unit := fun m => Some (tt, put_map m id (map_delete (map_of m id) k)).
 
 (* the Go runtime's policy for small slices, used by the executable instance *)
 Definition go_slack (oldcap need : nat) : nat := Nat.max need (2 * oldcap) - need.
